@@ -3166,7 +3166,7 @@ def _update_gradient(m: types.Model, d: types.Data, ctx: SolverContext, compact:
           block_dim=m.block_dim.update_gradient_JTDAJ_dense,
         )
 
-    if m.opt.cone == types.ConeType.ELLIPTIC and not (m.is_sparse or sc):
+    if m.opt.cone == types.ConeType.ELLIPTIC and not (m.is_sparse or sc) and d.naconmax > 0:
       # Optimization: launching update_gradient_JTCJ with limited number of blocks on a GPU.
       # Profiling suggests that only a fraction of blocks out of the original
       # d.njmax blocks do the actual work. It aims to minimize #CTAs with no
